@@ -237,6 +237,14 @@ func c16Engine() *Engine {
 						comps[2] = []string{"dir", "AAPL", "MSFT"}[r.Intn(3)]
 					}
 				}
+				if r.Pct(8) {
+					// a key that resolves to a bucket directory that EXISTS outside the root
+					// (a neighbouring instance's data): code that looks at the target before
+					// it validates the key behaves differently there
+					cats = []string{"Up/Host/Symbol/Timeframe/AttributeGroup", "Extra/Extra/Symbol/Timeframe/AttributeGroup", "Symbol/Extra/Extra/Timeframe/AttributeGroup"}[r.Intn(3)]
+					comps = []string{"..", []string{"outside", "data.bak"}[r.Intn(2)], "dir", "1Min", "OHLCV"}
+					ncomp = 5
+				}
 				if r.Pct(5) && len(comps) > 1 {
 					comps = comps[:len(comps)-1] // fewer items than categories
 				} else if r.Pct(5) {
